@@ -164,7 +164,69 @@ def run_sub(rec, seed, shard, nshards, tier):
     core.hyp_run(rec, prop_sub, cases_sub(), n, seed, shrink=(tier == 'thorough'))
 
 
+# ---------------------------------------------------------------- scale: a queue that holds more than 50 000 entries
+LQ_VARS = ['D1', 'D2', 'D3', 'D4', 'O1', 'O2', 'O3', 'K4', 'Y1']
+
+
+def large_queue_model():
+    """9^5 = 59 049 base structures with pairwise distinct probabilities (the queue starts with one entry per structure, more than
+    the 50 000 that the source names as its intended maximum), three of the nine variables with two groups."""
+    import itertools
+    vals = {'D1': ['1', '2'], 'D2': ['11', '22'], 'D3': ['111', '222'], 'D4': ['1111'], 'O1': ['!'], 'O2': ['!!'], 'O3': ['!!!'], 'K4': ['qwer'], 'Y1': ['1999']}
+    vars_ = {}
+    for k, v in vals.items():
+        vars_[k] = [[0.75, [v[0]]], [0.25, [v[1]]]] if len(v) == 2 else [[1.0, [v[0]]]]
+    structs = [''.join(t) for t in itertools.product(LQ_VARS, repeat=5)]
+    total = len(structs) * (len(structs) + 1) // 2
+    base = [[st_, (len(structs) - i) / total] for i, st_ in enumerate(structs)]
+    return {'encoding': 'utf-8', 'uuid': 'c01-large-queue', 'vars': vars_, 'base': base, 'm_levels': []}
+
+
+def prop_large_queue(case, rec):
+    from .. import guesser
+    import itertools
+    k = case['pops']
+    m = large_queue_model()
+    rdir = os.path.join(_dir(), 'LQ')
+    rsmodel.write_ruleset(rdir, m)
+    g = guard(case, guesser.load, rdir)
+    # every pre-terminal's probability, multiplied in the order the documentation states (base, then left to right)
+    gp = {name: [float(p) for p, _ in groups] for name, groups in m['vars'].items()}
+    expected = []
+    for st_, bp in m['base']:
+        toks = rsmodel.tokens(st_)
+        for idx in itertools.product(*[range(len(gp[t])) for t in toks]):
+            p = bp
+            for t, i in zip(toks, idx):
+                p *= gp[t][i]
+            expected.append(p)
+    expected.sort(reverse=True)
+    q = guesser.new_queue(g)
+    biggest = len(q.p_queue)
+    seen = set()
+    for i in range(min(k, len(expected))):
+        it = guard(case, q.next)
+        if it is None:
+            raise Violation('ends_early', f'the queue reports exhaustion after {i} of {len(expected)} pre-terminals', case)
+        biggest = max(biggest, len(q.p_queue))
+        key = (it['base_prob'], tuple((a, b) for a, b in it['pt']))
+        if key in seen:
+            raise Violation('repeated', f'pre-terminal #{i} {it["pt"]} (probability {it["prob"]!r}) was emitted before', case)
+        seen.add(key)
+        # the i-th emitted pre-terminal has the i-th largest probability of the ruleset: order, nothing lost, nothing repeated
+        if abs(it['prob'] - expected[i]) > 1e-9 * expected[i]:
+            raise Violation('order', f'pre-terminal #{i} {it["pt"]} has probability {it["prob"]!r}; the {i}-th largest probability of the ruleset is {expected[i]!r} '
+                            f'(the queue held up to {biggest} entries)', case)
+    rec.case({'base_structures': len(m['base']), 'pops': k, 'largest_queue': biggest}, True, ['queue_of_more_than_50000_entries'] if biggest > 50000 else ['queue_small'],
+             key=['large_queue', k])
+
+
+def run_large_queue(rec, seed, shard, nshards, tier):
+    prop_large_queue({'pops': {'quick': 60000, 'thorough': 400000}[tier]}, rec)
+
+
 PARTS = [
+    Part('large_queue', run_large_queue, prop_large_queue, {'quick': 1, 'thorough': 1}),
     Part('order', run_order, prop, {'quick': 8, 'thorough': 16}),
     Part('subprocess_determinism', run_sub, prop_sub, {'quick': 4, 'thorough': 8}),
 ]
